@@ -748,6 +748,13 @@ class FnTranslator:
             if a[1] != 'S':
                 raise Refuse('.lower() on a non-string')
             return ('(unchars (lower (chars %s)))' % a[0], 'S')
+        if isinstance(f, ast.Attribute) and f.attr == 'startswith' and len(n.args) == 1 and not n.keywords:
+            # [loop ties e1] s.startswith(t) on two strings: t is a prefix of s (Base/Str.v str_prefix t s; the tuple-of-prefixes
+            # and start / end forms of str.startswith are refused: one argument, both of type S)
+            a, b = self.expr(f.value, env), self.expr(n.args[0], env)
+            if a[1] != 'S' or b[1] != 'S':
+                raise Refuse('%s: .startswith on types %s / %s' % (self.rel, a[1], b[1]))
+            return ('(str_prefix %s %s)' % (b[0], a[0]), 'B')
         if isinstance(f, ast.Attribute) and isinstance(f.value, ast.Name) and f.value.id in ('np', 'numpy', 'math') \
                 and f.attr in ('maximum', 'minimum', 'fmax', 'fmin') and len(n.args) == 2:
             f = ast.Name(id='max' if 'max' in f.attr else 'min', ctx=ast.Load())
